@@ -214,6 +214,11 @@ class Classifier:
             b = self.bounds.ub(div)
             if re.match(r"^const:[1-9]\d*$", div) or any(re.search(rx, div) for rx in self.nonzero):
                 auto = ("interval", "divisor is a non-zero constant or a listed non-zero quantity")
+            else:
+                # a named constant of the crate whose value the compiler evaluated to something other than zero
+                from core import numeric
+                if re.match(r"^(cast\()?const:[1-9]\d*\)?$", numeric(div)):
+                    auto = ("interval", "divisor is a named constant with a non-zero value")
         elif kind.startswith("Overflow:"):
             op = kind.split(":")[1]
             t = f.blocks[s["bb"]]["term"]
@@ -286,6 +291,12 @@ class Classifier:
                     auto = ("guarded", "len > index of the same container dominates")
             if auto is None and re.match(r"^(RangeFull|Range::RangeFull)", idx):
                 auto = ("const/iter", "full range")
+            # v[0] behind !v.is_empty() / v.len() != 0 / v.len() > 0
+            if auto is None and idx == "const:0":
+                for a_ in atoms:
+                    if re.match(r"^!\((Vec|<impl \[T\]>|VecDeque)::is_empty\(%s\)\)$" % re.escape(cont), a_) or a_ in ("(Ne(len(%s),const:0))" % cont, "(Gt(len(%s),const:0))" % cont, "(Ge(len(%s),const:1))" % cont):
+                        auto = ("guarded", "first element read behind a non-emptiness test of the same container")
+            # division / remainder by a named constant whose value is known and not zero
             # buf[0..min(buf.len(), x)]
             m = re.match(r"^Range(To)?::Range(To)?\((?:const:0,)?(?:cmp|Ord)::min\((.*)\)\)$", idx)
             if auto is None and m:
@@ -489,9 +500,12 @@ def loop_certificates(ctx, f, header, body):
     if every_cycle(lambda x: re.search(checked_next, x.name), ok_edge=True):
         first_exit = False
         for (b, k, tgt) in exits:
-            a = g.describe(b, *_edge_label(f, b, k)) if f.blocks[b]["term"]["t"] == "switch" else None
-            if a and re.match(r"^\(Eq\(var:\w+,(param:\w+|var:first\w*)\)\)$", a):
-                first_exit = True
+            if f.blocks[b]["term"]["t"] != "switch":
+                continue
+            for a in g.describe_all(b, *_edge_label(f, b, k)):
+                # the id just obtained (a variable, or the checked lookup's result itself) equals the chain's first id
+                if re.match(r"^\(Eq\((var:\w+|ok\(.*\)),(param:\w+|var:first\w*)\)\)$", a) and (a.startswith("(Eq(var:") or re.search(checked_next.replace("<F>::", "::").replace("$", "") .split("|")[0].split("::")[-1] + r"\(|next_mini_sector\(|::next\(", a)):
+                    first_exit = True
         if first_exit:
             certs.append("CHAIN-WALK")
         mr = tbl.get("mark_refuse", "")
